@@ -76,6 +76,15 @@ def run(res):
             sh = ('A', rng.choice([('X', p1), ('F', p1), ('G', p1), ('U', p1, p2), ('R', p1, p2)]))
             checks.append(('CTL=LTL', K, job('CTL', K, sh), 'eq', [job('LTL', K, sh)], (sh, None)))
             checks.append(('CTL=LTL=CTLS', K, job('CTLS', K, sh, 'text'), 'eq', [job('LTL', K, sh, 'text')], (sh, None)))
+            # the same formula handed over as an object of another language module it also belongs to
+            checks.append(('LTL(CTL-object)=CTL', K, job('LTL', K, sh, 'obj@CTL'), 'eq', [job('CTL', K, sh)], (sh, None)))
+            checks.append(('CTL(LTL-object)=LTL', K, job('CTL', K, sh, 'obj@LTL'), 'eq', [job('LTL', K, sh)], (sh, None)))
+            checks.append(('CTLS(CTL-object)=CTL', K, job('CTLS', K, c, 'obj@CTL'), 'eq', [job('CTL', K, c)], (c, None)))
+            checks.append(('CTLS(LTL-object)=LTL', K, job('CTLS', K, lt, 'obj@LTL'), 'eq', [job('LTL', K, lt)], (lt, None)))
+            checks.append(('LTL(CTLS-object)=LTL', K, job('LTL', K, lt, 'obj@CTLS'), 'eq', [job('LTL', K, lt)], (lt, None)))
+            checks.append(('CTL(CTLS-object)=CTL', K, job('CTL', K, c, 'obj@CTLS'), 'eq', [job('CTL', K, c)], (c, None)))
+            checks.append(('CTLS(PL-object)=CTL(PL-object)', K, job('CTLS', K, p1, 'obj@PL'), 'eq', [job('CTL', K, p1, 'obj@PL')], (p1, None)))
+            checks.append(('CTL(PL-object)=CTL', K, job('CTL', K, p1, 'obj@PL'), 'eq', [job('CTL', K, p1)], (p1, None)))
 
     impl = mc_common.impl_batch([(logic, K.succ, K.labs, t, e) for (logic, K, t, e) in cases])
     model = [mc_common.norm(x) for x in lean_batch(['%s|%s|%s' % (logic, K.enc(), sexpr(t)) for (logic, K, t, e) in cases])]
